@@ -1406,8 +1406,48 @@ func ruleValidatedTokensAreDecodedTokens(c *report.Ctx) {
 		if f == nil {
 			continue
 		}
-		for i, s := range calls(f, fields) {
-			arg := an.CallOf(s).Args[0]
+		// strings.Fields may be called by a same-package helper that is handed the sentence unchanged
+		type fsite struct {
+			in  ssa.Instruction
+			arg ssa.Value
+		}
+		var fsites []fsite
+		for _, s := range calls(f, fields) {
+			fsites = append(fsites, fsite{s, an.CallOf(s).Args[0]})
+		}
+		an.Instrs(f, func(in ssa.Instruction) {
+			call, ok := in.(*ssa.Call)
+			if !ok {
+				return
+			}
+			g := call.Call.StaticCallee()
+			if g == nil || g == f || g.Blocks == nil || an.FuncPkg(g) != an.FuncPkg(f) {
+				return
+			}
+			for _, s := range calls(g, fields) {
+				a := an.CallOf(s).Args[0]
+				for {
+					if tc, ok := a.(*ssa.Call); ok && trim != nil && tc.Call.StaticCallee() == trim {
+						a = tc.Call.Args[0]
+						continue
+					}
+					break
+				}
+				// helper's own parameter → the argument f passes
+				if par, ok := a.(*ssa.Parameter); ok && par.Parent() == g {
+					for i, q := range g.Params {
+						if q == par && i < len(call.Call.Args) {
+							fsites = append(fsites, fsite{in, call.Call.Args[i]})
+						}
+					}
+				} else {
+					fsites = append(fsites, fsite{in, a})
+				}
+			}
+		})
+		for i, fs := range fsites {
+			s := fs.in
+			arg := fs.arg
 			for {
 				if call, ok := arg.(*ssa.Call); ok && trim != nil && call.Call.StaticCallee() == trim {
 					arg = call.Call.Args[0]
